@@ -28,9 +28,11 @@ if detlog and os.path.exists(detlog):
     out.append("An earlier campaign (200 cases x 3 for every property, before the generators were extended) also had 0 divergences. The one divergence seen "
                "in the whole session was in C13 *under a violation* (finished task threads exiting concurrently with the next baton holder); see DESIGN.md 11.3.\n")
 out.append("## 2. Sensitivity: seeded changes\n")
-out.append("46 changes made by independent sub-agents that were given only a property's text and a scratch worktree (never anything from /verif), each "
+nseeds = len(glob.glob("/verif/seeded/*/meta.json"))
+out.append("%d changes made by independent sub-agents that were given only a property's text and a scratch worktree (never anything from /verif), each "
            "confirmed to build, to pass the whole test suite and to fail its own demonstration only with the change. `seeded/INDEX.md` has what each one is "
-           "and what happened when it was first evaluated (26 of them were missed by the check as it stood and led to a generator or oracle extension). "
+           "and what happened when it was first evaluated (more than half of them were missed by the check as it stood and led to a generator, fault-kind or oracle extension; DESIGN.md 11.4). " % nseeds
+           +
            "`tools/seedregress.py` re-applies every kept patch to a scratch worktree of the final /repo and re-runs the final quick check:\n")
 reg = "/verif/seeded/REGRESSION.md"
 if os.path.exists(reg):
